@@ -261,14 +261,14 @@ func genPh(r *vf.Run) func(t *rapid.T) PhCase {
 			c.Mode = pMissingKey
 		}
 		// A near-miss name that is defined: in three of four "nothing by that name" cases, in one of three others.
-		decoyOdds := 0
+		num, den := 0, 1
 		switch c.Mode {
 		case pUnsetEnv, pMissingKey:
-			decoyOdds = 3
+			num, den = 3, 4
 		case pWhole, pEmbedded, pInvalid:
-			decoyOdds = 1
+			num, den = 1, 3
 		}
-		if decoyOdds > 0 && rapid.IntRange(0, decoyOdds+(4-decoyOdds)%3).Draw(t, "decoy") < decoyOdds {
+		if num > 0 && rapid.IntRange(1, den).Draw(t, "decoy") <= num {
 			cv, af := nearMisses(c.Name, rapid.IntRange(0, 31).Draw(t, "flip"))
 			pool := append(append(append([]string{}, cv...), cv...), af...) // case variants twice as likely
 			c.Decoy = rapid.SampledFrom(pool).Draw(t, "decoyName")
@@ -301,24 +301,41 @@ func (c PhCase) placeholder() string {
 	return "${property:" + filepath.Join(propDir, c.File) + "#" + c.Name + "}"
 }
 
-// install makes the variable resolvable (or deliberately not) and returns the cleanup.
-func (c PhCase) install(value string) (func(), error) {
+// install makes the variable resolvable (or deliberately not), defines the decoy and returns the cleanup.
+func (c PhCase) install(value, decoyValue string) (func(), error) {
 	path := filepath.Join(propDir, c.File)
 	if c.Src == "env" {
+		var set []string
+		cleanup := func() {
+			for _, n := range set {
+				os.Unsetenv(n)
+			}
+		}
+		if c.Decoy != "" && c.Decoy != c.Name {
+			if err := os.Setenv(c.Decoy, decoyValue); err != nil {
+				return nil, err
+			}
+			set = append(set, c.Decoy)
+		}
 		if c.Mode == pUnsetEnv {
 			os.Unsetenv(c.Name)
-			return func() {}, nil
+			return cleanup, nil
 		}
 		if err := os.Setenv(c.Name, value); err != nil {
+			cleanup()
 			return nil, err
 		}
-		return func() { os.Unsetenv(c.Name) }, nil
+		set = append(set, c.Name)
+		return cleanup, nil
 	}
 	if c.Mode == pMissingFile {
 		os.Remove(path)
 		return func() {}, nil
 	}
 	lines := []string{"# properties", "other=1", c.Name + "_x=no"}
+	if c.Decoy != "" && c.Decoy != c.Name {
+		lines = append(lines, c.Decoy+"="+decoyValue) // before the real key
+	}
 	if c.Mode != pMissingKey {
 		lines = append(lines, c.Name+"="+value)
 	}
@@ -418,10 +435,22 @@ func checkPh(c PhCase, o *vf.Obs) error {
 	}
 
 	mustReject := c.Mode != pWhole && c.Mode != pEmbedded
+	// what the decoy holds: the text the field accepts when nothing by the placeholder's name exists or the named
+	// variable holds invalid text (falling back to the decoy would then go unnoticed), a foreign text otherwise
+	decoyValue := decoyText
+	if mustReject {
+		decoyValue = text
+	}
 	o.Class("src:"+c.Src, "mode:"+c.Mode, "class:"+class, "comp:"+s.Comp.Label(), depthClass(s.Depth))
 	o.ClassIf(mustReject && c.Mode != pInvalid, "missing:"+c.Mode)
 	o.ClassIf(class != cg.CString, "non_string_field")
 	o.ClassIf(c.Elem >= 0, "list_element")
+	o.Class(decoyClass(c.Name, c.Decoy))
+	if c.Decoy != "" && c.Decoy != c.Name {
+		o.ClassIf(mustReject && c.Mode != pInvalid, "missing_with_"+decoyClass(c.Name, c.Decoy)+":"+c.Src)
+		o.ClassIf(!mustReject, "defined_with_"+decoyClass(c.Name, c.Decoy)+":"+c.Src)
+		o.Note("decoy", c.Decoy+"="+decoyValue)
+	}
 	if class != cg.CString {
 		o.NonTrivial()
 	}
@@ -437,7 +466,7 @@ func checkPh(c PhCase, o *vf.Obs) error {
 		return fmt.Errorf("the literal configuration was not accepted: %s", resL)
 	}
 
-	cleanup, err := c.install(value)
+	cleanup, err := c.install(value, decoyValue)
 	if err != nil {
 		return err
 	}
@@ -452,6 +481,10 @@ func checkPh(c PhCase, o *vf.Obs) error {
 		if resP.accepted() && c.Mode == pInvalid {
 			return fmt.Errorf("%s: %s/%s (%s %s) = %q with the variable holding %q was accepted, although %q is no valid value there",
 				c.Mode, c.Site, c.Key, s.Comp.Label(), class, ph, value, value)
+		}
+		if resP.accepted() && c.Decoy != "" {
+			return fmt.Errorf("%s: %s/%s (%s %s) = %q names nothing that exists (only %q, holding %q, does), but the configuration was accepted",
+				c.Mode, c.Site, c.Key, s.Comp.Label(), class, ph, c.Decoy, decoyValue)
 		}
 		if resP.accepted() {
 			return fmt.Errorf("%s: %s/%s (%s %s) = %q names nothing that exists, but the configuration was accepted",
